@@ -52,7 +52,7 @@ Proof.
 Qed.
 
 Definition pw (s : pool) := (wlist s, itab s).
-Definition event_is_tick (e : event) : bool := match e with ETick | ETickClose _ => true | _ => false end.
+Definition event_is_tick (e : event) : bool := match e with ETick | ETickClose _ | EJoinShutdown => true | _ => false end.
 
 Lemma pw_deliver s p sg l : pw (deliver s p sg l) = pw s.
 Proof. unfold pw. rewrite itab_deliver. reflexivity. Qed.
@@ -72,9 +72,9 @@ Proof.
     rewrite pw_deliver. reflexivity.
 Qed.
 
-Lemma pw_step s e : e <> ETick -> (forall k, e <> ETickClose k) -> pw (fst (step s e)) = pw s.
+Lemma pw_step s e : e <> ETick -> (forall k, e <> ETickClose k) -> e <> EJoinShutdown -> pw (fst (step s e)) = pw s.
 Proof.
-  intros Hne Hnk. destruct e; try congruence; try (exfalso; eapply Hnk; reflexivity); unfold step; cbn [fst]; try reflexivity.
+  intros Hne Hnk Hnj. destruct e; try congruence; try (exfalso; eapply Hnk; reflexivity); unfold step; cbn [fst]; try reflexivity.
   - unfold do_apply.
     destruct (negb (pstate (with_sigs s []) =? 0)); [reflexivity|].
     destruct ((match slot with Some b => b | None => putlocks (with_sigs s []) end) && (LaxSem.value (sem (with_sigs s [])) =? 0)); [reflexivity|]. cbn [fst].
@@ -203,6 +203,18 @@ Proof.
   intros Hin. apply memZ_In in Hin. fold (used_idx (with_rst s r)) in Hf. rewrite Hin in Hf. discriminate.
 Qed.
 
+Lemma WInv_join_exited s : WInv s -> WInv (fst (join_exited s)).
+Proof.
+  intros [H1 H2].
+  destruct (join_exited_shape s) as (Hw & Hn & Hps).
+  assert (Hp : procs (fst (join_exited s)) = procs s).
+  { unfold join_exited. destruct (filter _ (rev _)); reflexivity. }
+  destruct (join_exited s) as [s1 codes]. cbn [fst] in *.
+  unfold WInv, itab. rewrite Hw, Hp. split.
+  - unfold kept. apply NoDup_map_filter. exact H1.
+  - intros p Hin. unfold kept in Hin. apply filter_In in Hin. apply H2. tauto.
+Qed.
+
 Lemma WInv_tick s : WInv s -> WInv (fst (do_tick s)).
 Proof.
   intros [H1 H2]. unfold do_tick.
@@ -243,6 +255,8 @@ Proof.
   - destruct e; try discriminate; unfold step; cbn [fst].
     + apply WInv_tick. exact Hw.
     + apply WInv_tick_close. exact Hw.
+    + unfold do_join_shutdown. destruct (wlist (with_sigs s [])) eqn:Ew; cbn [fst]; [exact Hw|].
+      apply (WInv_join_exited (with_sigs s [])). exact Hw.
   - apply (WInv_pw s); [apply pw_step|apply only_tick_starts_workers|exact Hw];
       try (intros ->; discriminate); intros k0 ->; discriminate.
 Qed.
